@@ -120,7 +120,7 @@ def md_ops():
         ops.append(("pop", k))
         ops.append(("setdefault", k, "2"))
     ops += [("poplist", "a"), ("poplist", "b"), ("popitem",), ("popitemlist",), ("setlistdefault", "a", ("x", "1")), ("setlistdefault", "b", ("2",)),
-            ("update", "pairs", "a"), ("update", "dictlist", "A"), ("update", "dict", "b"), ("update", "md", "a"), ("update", "dicttuple", "b"),
+            ("update", "pairs", "a"), ("update", "dictlist", "A"), ("update", "dict", "b"), ("update", "md", "a"), ("update", "dicttuple", "b"), ("update", "dictset", "a"), ("update", "dictemptyset", "A"),
             ("clear",), ("ior", "a"), ("ior", "b"), ("copymut",), ("or", "A"), ("popdefault", "b"), ("setlistdefault_alias", "b")]
     return ops
 
@@ -211,7 +211,8 @@ def md_apply(W, md, m, op):
     elif name == "update":
         k = op[2]
         src = {"pairs": lambda: [(k, "1")], "dictlist": lambda: {k: ["1", "2"]}, "dict": lambda: {k: "x"},
-               "md": lambda: MultiDict([(k, "1"), (k, "1")]), "dicttuple": lambda: {k: ("2", "x")}}[op[1]]()
+               "md": lambda: MultiDict([(k, "1"), (k, "1")]), "dicttuple": lambda: {k: ("2", "x")},
+               "dictset": lambda: {k: {"2"}}, "dictemptyset": lambda: {k: set(), "b": {"x"}}}[op[1]]()
         md.update(src)
         for kk, vv in multi_items(src):
             m.add(kk, vv)
@@ -311,7 +312,7 @@ def h_ops():
                 ("pop", k), ("setdefault", k, "2")]
     ops += [("popidx",), ("popnone",), ("popitem",), ("setlistdefault", "a", ("x", "1")), ("setlistdefault", "b", ("2",)),
             ("update", 0, "a"), ("update", 1, "A"), ("update", 2, "b"), ("update", 3, "a"), ("update", 4, "A"), ("update", 5, "b"), ("ior_iter", "a"), ("extend_iter", "b"),
-            ("extend", 0, "a"), ("extend", 1, "b"), ("extend", 2, "A"),
+            ("extend", 0, "a"), ("extend", 1, "b"), ("extend", 2, "A"), ("extend", 3, "a"),
             ("clear",), ("ior", "a"), ("setidx", "A"), ("setslice", "b"), ("delidx",), ("delslice",), ("copy", "a"), ("or", "b"), ("popdefault", "A"), ("add_header", "b"),
             # a value the container refuses (line break): the call raises and, in the model, nothing happens
             ("refused", "set", "a"), ("refused", "setitem", "A"), ("refused", "add", "b"), ("refused", "setdefault", "z")]
@@ -412,6 +413,9 @@ def h_apply(W, h, m, op):
         elif kind == 1:
             h.extend({k: ["1", "2"]})
             m.add(k, "1")
+            m.add(k, "2")
+        elif kind == 3:
+            h.extend({k: {"2"}, "b": set()})  # a set of values like a list of values; an empty one adds nothing
             m.add(k, "2")
         else:
             h.extend(Headers([(k, "x")]), b="7")
